@@ -607,3 +607,32 @@ func (w *Worker) stubResults(sig *types.Signature, args []Value) Value {
 	}
 	return out
 }
+
+func init() {
+	// sort.Slice / sort.SliceStable use reflection to swap; do a stable insertion
+	// sort through the interpreter instead (less is the caller's closure).
+	reg(func(w *Worker, caller *frame, fn *ssa.Function, a []Value) Value {
+		iv, ok := a[0].(IfaceV)
+		if !ok {
+			panic(pathAbort{"unsupported", "sort.Slice on non-interface"})
+		}
+		s, ok := iv.V.(SliceV)
+		if !ok {
+			panic(pathAbort{"unsupported", "sort.Slice on non-slice"})
+		}
+		less := func(i, j int) bool {
+			r := w.callValue(caller, a[1], []Value{w.i64(i), w.i64(j)})
+			return w.Branch(r.(*term.Term))
+		}
+		for i := 1; i < s.Len; i++ {
+			for j := i; j > 0 && less(j, j-1); j-- {
+				x := w.kid(s.Arr, s.Off+j)
+				y := w.kid(s.Arr, s.Off+j-1)
+				vx, vy := w.load(x), w.load(y)
+				w.store(x, vy)
+				w.store(y, vx)
+			}
+		}
+		return nil
+	}, "sort.Slice", "sort.SliceStable")
+}
